@@ -237,7 +237,31 @@ fn variants(src: &str, rng: &mut Rng, per_kind: usize) -> Vec<(&'static str, boo
         match t.kind { TkKind::Open => depth += 1, TkKind::Close => depth -= 1, TkKind::Sep if depth == 0 => body_from = t.end, _ => {} }
     }
     let body_to = tk.last().unwrap().end;
-    if body_from < body_to && tk.last().unwrap().kind != TkKind::Sep {
+    // the body rewrites need a body that really is one: the definitions in front of it must form a program of their
+    // own (with a dummy body), and the body must not be a parenthesised group -- gram flattens `a = 1; (b = 2; c)` into
+    // ONE group, so that naming such a body changes what scopes over what (a rewrite of another kind)
+    let prefix_ok = {
+        let probe = format!("{}0", &src[..body_from]);
+        let mut toks = vec![];
+        matches!(front(&probe, &mut toks), Stage::Parsed(_))
+    };
+    let body_is_group = {
+        let b = src[body_from..body_to].trim();
+        let inner: Vec<&Tk> = tk.iter().filter(|t| t.start >= body_from).collect();
+        let mut depth = 0i32;
+        let mut sep_at_1 = false;
+        let mut closes_at_end = false;
+        for (n, t) in inner.iter().enumerate() {
+            match t.kind {
+                TkKind::Open => depth += 1,
+                TkKind::Close => { depth -= 1; if depth == 0 { closes_at_end = n + 1 == inner.len(); if !closes_at_end { break; } } }
+                TkKind::Sep if depth == 1 => sep_at_1 = true,
+                _ => {}
+            }
+        }
+        b.starts_with('(') && closes_at_end && sep_at_1
+    };
+    if body_from < body_to && tk.last().unwrap().kind != TkKind::Sep && prefix_ok && !body_is_group {
         let body = src[body_from..body_to].trim().to_owned();
         let lead = if body_from == code_start { "" } else { " " };
         // R4: naming the body
